@@ -36,7 +36,8 @@ theorem mergeRun_reverse_cons (a : Bytes) (h : Hunk) (hs : List Hunk) :
 
 theorem step_ok_replaceRange {orig m : Bytes} {e : Edit} {r : Bytes} (h : step orig m e = .ok r) :
     replaceRange m e.start e.stop e.after = some r := by
-  unfold step at h
+  change stepG true orig m e = .ok r at h
+  unfold stepG at h
   split at h
   · cases h
   · split at h
